@@ -5,29 +5,55 @@
 // setLeaderStatus driven with a shifted clock.
 package clientsets
 
-import "time"
+import (
+	"time"
+
+	"k8s.io/client-go/rest"
+)
 
 // VerifNewBare returns the real clientSets struct with nothing running: no endpoints, no leader, no client.
-// ClientFor fails ("shard count not synced" / "has no leader"), IsReady reads leaderReady as in production.
-func VerifNewBare(runID string) ClientSets {
-	return &clientSets{runId: runID}
+// IsReady reads leaderReady as in production. serverInfoURL is what lookupFunc answers: the (scripted) limiter
+// service that sync() asks for /ratelimit/endpoints.
+func VerifNewBare(runID, serverInfoURL string) ClientSets {
+	return &clientSets{
+		runId:      runID,
+		service:    "verif",
+		lookupFunc: func(string) []string { return []string{serverInfoURL} },
+		restConfig: &rest.Config{},
+		insecure:   true,
+	}
 }
 
 // VerifSetShardCount does what sync() does with the server's answer.
 func VerifSetShardCount(c ClientSets, n int) { c.(*clientSets).shardCount = n }
 
-// VerifHeartbeat calls the real setLeaderStatus(shard, server, ready) as if `elapsed` had passed since the previous
-// heartbeat of that shard: setLeaderStatus only ever compares time.Now() with status.lastChange, so moving
-// lastChange back by `elapsed` is the same as moving the clock forward.
-func VerifHeartbeat(c ClientSets, shard int, ready bool, elapsed time.Duration) {
-	cs := c.(*clientSets)
-	if hs, ok := cs.leaderReady.Load(shard); ok {
-		st := hs.(*heartbeatStatus)
+// VerifAdvance moves the clock forward by d for everything setLeaderStatus compares with: it only ever compares
+// time.Now() with status.lastChange, so moving every lastChange back by d is the same as moving the clock forward.
+func VerifAdvance(c ClientSets, d time.Duration) {
+	c.(*clientSets).leaderReady.Range(func(_, v interface{}) bool {
+		st := v.(*heartbeatStatus)
 		if !st.lastChange.IsZero() {
-			st.lastChange = st.lastChange.Add(-elapsed)
+			st.lastChange = st.lastChange.Add(-d)
 		}
+		return true
+	})
+}
+
+// VerifHeartbeat calls the real setLeaderStatus(shard, server, ready): one heartbeat outcome.
+func VerifHeartbeat(c ClientSets, shard int, ready bool) {
+	c.(*clientSets).setLeaderStatus(shard, "verif", ready)
+}
+
+// VerifSync runs the real sync() once (it fetches the server info from serverInfoURL).
+func VerifSync(c ClientSets) { c.(*clientSets).sync() }
+
+// VerifLeader is leaderEndpoints[shard] ("" when none).
+func VerifLeader(c ClientSets, shard int) string {
+	v, ok := c.(*clientSets).leaderEndpoints.Load(shard)
+	if !ok {
+		return ""
 	}
-	cs.setLeaderStatus(shard, "verif", ready)
+	return v.(string)
 }
 
 // VerifStatus reads the heartbeat status of a shard: exists, lastState, ready.
